@@ -746,22 +746,41 @@ Proof.
   split; [rewrite Dt; exact Htot|rewrite Dn; exact Hn].
 Qed.
 
-(* the hypotheses are satisfiable, and the conclusion is the computed value on a small corpus, both modes *)
-Example C06_example :
-  let docs := [[1;2;1;3];[];[2];[1;1;2];[3;1]] in
-  let keys := [[4;2;0;0];[1;0;3]] in
-  wf_docs docs /\ valid_keys (length docs) keys /\
-  forall avoid, exists ix v, index false 2 docs = AOk ix /\ select_chain (of_index ix avoid) keys = AOk v /\
-    a_rows v = [2;4;0] /\ v_termfreqs v 1 None None = AOk [0;1;2] /\ v_positions v 1 = AOk [[];[1];[0;2]] /\
-    v_docfreq v 1 = AOk 3.
+(* the statistics a BM25-family scorer receives for a single term on a view:
+   view term frequencies and view lengths, PARENT document frequency, total length and corpus size *)
+Corollary C06_score_args docs bs ix avoid keys v t :
+  wf_docs docs -> index false bs docs = AOk ix -> valid_keys (length docs) keys ->
+  select_chain (of_index ix avoid) keys = AOk v ->
+  v_score_args v [t] None None =
+    AOk (tf_spec (view_docs docs keys) t, [df_spec docs t], lens_spec (view_docs docs keys),
+         total_spec docs, N.of_nat (length docs)).
 Proof.
-  cbn zeta. split; [split; [repeat constructor; cbn; lia|rewrite pow28; cbn; lia]|].
-  split; [cbn [valid_keys length]; repeat split; repeat constructor; cbn; lia|].
-  intros [|]; eexists; eexists; (split; [vm_compute; reflexivity|]); vm_compute; repeat split; reflexivity.
+  intros Hwf E Hv Ev. destruct (C06_commute docs bs ix avoid keys v Hwf E Hv Ev) as (_ & Htf & _ & Hl & Hdf & Htot & Hn).
+  unfold v_score_args. cbn [v_all_dfs v_tf_vector]. rewrite Hdf. cbn [abind]. rewrite Htf. cbn [abind].
+  now rewrite Hl, Htot, Hn.
 Qed.
+
+(* the hypotheses are satisfiable, and the conclusion is the computed value on a small corpus, both modes *)
+Definition ex_docs : list (list N) := [[1;2;1;3];[];[2];[1;1;2];[3;1]].
+Definition ex_keys : list (list N) := [[4;2;0;0];[1;0;3]].
+Definition ex_run (avoid : bool) :=
+  match index false 2 ex_docs with
+  | AOk ix => match select_chain (of_index ix avoid) ex_keys with
+              | AOk v => Some (a_rows v, v_termfreqs v 1 None None, v_positions v 1, v_docfreq v 1, v_doclengths v)
+              | _ => None end
+  | _ => None end.
+Example C06_example_wf : wf_docs ex_docs /\ valid_keys (length ex_docs) ex_keys.
+Proof.
+  split; [split; [repeat constructor; cbn; lia|rewrite pow28; cbn; lia]|].
+  cbn [valid_keys length ex_docs ex_keys]. repeat split; repeat constructor; cbn; lia.
+Qed.
+Example C06_example_run : forall avoid,
+  ex_run avoid = Some ([2;4;0], AOk [0;1;2], AOk [[];[1];[0;2]], AOk 3, [1;2;4]).
+Proof. intros [|]; vm_compute; reflexivity. Qed.
 
 Print Assumptions C06_select_total.
 Print Assumptions C06_commute.
 Print Assumptions C06_positions_absent.
 Print Assumptions C06_reindex.
 Print Assumptions C06_parent.
+Print Assumptions C06_score_args.
